@@ -834,7 +834,7 @@ func ruleMergeClassify(c *Ctx) {
 		}
 		hasEntry := false
 		for _, p := range f.Params {
-			if isEntryPtr(p.Type()) {
+			if isEntryPtr(p.Type()) || namedIs(derefT(p.Type()), "MetaData") {
 				hasEntry = true
 			}
 		}
